@@ -5,8 +5,10 @@ From Coq Require Export List ZArith NArith Bool.
 Export ListNotations.
 Open Scope list_scope.
 
-Definition char := N.
-Definition str := list char.
+(* notations, not definitions: avoids terms that differ only in the name of
+   the type (rewrite / lia treat them as different) *)
+Notation char := N (only parsing).
+Notation str := (list N) (only parsing).
 
 (* the handful of ASCII characters the code names literally *)
 Definition c_tab : char := 9%N.
